@@ -634,7 +634,8 @@ class PersistenceImager(TransformerMixin):
 
         # loop over diagrams to determine the maximum extent of the pairs contained in the birth-persistence plane
         for pers_dgm in pers_dgms:
-            pers_dgm = np.copy(pers_dgm)
+            # (as float64: the extent of int8 / int16 data does not fit its dtype)
+            pers_dgm = np.array(pers_dgm, dtype=np.float64)
             if skew:
                 pers_dgm[:, 1] = pers_dgm[:, 1] - pers_dgm[:, 0]
 
@@ -922,7 +923,9 @@ def _transform(
     numpy.ndarray
         (M,N) numpy.ndarray encoding the persistence image corresponding to pers_dgm.
     """
-    pers_dgm = np.copy(pers_dgm)
+    # (as float64: the weights are powers of the persistence, which wrap
+    # around in a narrow integer dtype such as uint8)
+    pers_dgm = np.array(pers_dgm, dtype=np.float64)
     pers_img = np.zeros(resolution)
     n = pers_dgm.shape[0]
     general_flag = True
